@@ -171,6 +171,8 @@ class System:
             cur = getattr(w, op['name'])
             if cur is None:
                 return 'skipped'
+            if isinstance(cur, np.ndarray) and cur.dtype.kind in 'iu':
+                return 'skipped'          # `int_array *= 0.5` is numpy's own casting error in the caller's statement, not an update
             if isinstance(cur, np.ndarray):
                 cur *= op['factor']
             else:
